@@ -112,9 +112,14 @@ def step (st : St) (line : String) : St × List String :=
     -- (tabs count as blanks for strings.Fields)
     let src := st.pl.map fun l => parseLine (l.replace "\t" " ")
     match asmProgram st.a src with
-    | .ok ws => (st, [(s!"PR ok " ++ " ".intercalate (ws.map toString01)).trimAsciiEnd.toString])
+    | .ok ws =>
+      let pd := match disasmProgram st.a ws with
+        | none => "PD err"
+        | some is => ("PD " ++ " ; ".intercalate (is.map fun i => " ".intercalate (i.op :: i.args.map showOperand))).trimAsciiEnd.toString
+      (st, [(s!"PR ok " ++ " ".intercalate (ws.map toString01)).trimAsciiEnd.toString, pd])
     | .error .unmodelled => (st, ["PR unmodelled"])
     | .error _ => (st, ["PR err"])
+  else if line.startsWith "PD" || line.startsWith "PS" then (st, [])
   else
     let (a', outs) := stepA st.a line
     ({ st with a := a' }, outs)
